@@ -8,6 +8,7 @@ for l in open('/verif/properties.jsonl'):
     if p['id'] == pid:
         break
 wt = "/tmp/mut-%s-%s" % (pid, n)
+avoid = sys.argv[3] if len(sys.argv) > 3 else ""  # AVOID note
 print(f"""You are helping to evaluate a verification tool. Your job: produce ONE realistic, subtle code change ("seeded defect") to the Go repository apache/incubator-seata-go that BREAKS the behavioural property quoted below, while the repository still compiles and its existing test suite still passes. You get only the property text; you must NOT look at anything under /verif (do not read, list or search that directory).
 
 Set-up (no network in this sandbox):
@@ -20,6 +21,8 @@ The property (id {pid}): {p['title']}
   It must hold for: {p['quantifier']['text']}
   Relevant code (starting points): {', '.join(p['anchors']['files'])}
   Mechanisms meant to make it hold: {'; '.join((m.get('name') or '') + ' @ ' + (m.get('where') or '') for m in p['anchors']['mechanism'])}
+
+{("An earlier seeded change for this property already did this - choose a DIFFERENT mechanism, in a different function (preferably a different file): " + avoid) if avoid else ""}
 
 Requirements for the change:
   * It must be the kind of mistake a competent developer could make in a refactoring or "optimisation" (off-by-one, wrong variable, dropped/added condition, reordered steps, missing error propagation, lost lock, wrong map key ...), touching few lines; no comments that give it away; no new dependencies.
